@@ -25,6 +25,16 @@ Proof. vm_compute. reflexivity. Qed.
 Lemma defs_nssep : forallb (def_fixed T_NAMESPACE_SEPARATOR [92]) token_defs = true.
 Proof. vm_compute. reflexivity. Qed.
 
+(* equal literals: the DAG keeps only the LAST definition of a literal, while best_match with a type filter would
+   fall back to an earlier definition of the same literal when the last one is filtered out.  The two agree when all
+   definitions of one literal agree on is_kw_type; checked on the regenerated table. *)
+Fixpoint list_eqb (a b : list nat) : bool :=
+  match a, b with [], [] => true | x :: a', y :: b' => (x =? y) && list_eqb a' b' | _, _ => false end.
+Definition dup_agree (d : N * list nat) : bool :=
+  forallb (fun e => if list_eqb (snd d) (snd e) then Bool.eqb (is_kw_type (fst d)) (is_kw_type (fst e)) else true) token_defs.
+Lemma defs_dup_literals_agree : forallb dup_agree token_defs = true.
+Proof. vm_compute. reflexivity. Qed.
+
 (* ---------- lists ---------- *)
 Lemma count_nl_app a b : count_nl (a ++ b) = count_nl a + count_nl b.
 Proof. induction a as [|x a IH]; cbn [count_nl app]; [reflexivity|]. rewrite IH. lia. Qed.
